@@ -16,7 +16,31 @@ def sh(cmd, cwd=None, timeout=7200):
     return p.returncode, p.stdout
 
 
+def _evidence_backup():
+    """EVIDENCE BACKUP: runs against a seeded change must not leave their evidence files behind."""
+    import shutil, tempfile
+    d = tempfile.mkdtemp(prefix="evid_", dir=os.path.join(VERIF, "logs") if os.path.isdir(os.path.join(VERIF, "logs")) else None)
+    for f in os.listdir(os.path.join(VERIF, "evidence")):
+        shutil.copy(os.path.join(VERIF, "evidence", f), d)
+    return d
+
+
+def _evidence_restore(d):
+    import shutil
+    for f in os.listdir(d):
+        shutil.copy(os.path.join(d, f), os.path.join(VERIF, "evidence", f))
+    shutil.rmtree(d)
+
+
 def main():
+    bk = _evidence_backup()
+    try:
+        return _main()
+    finally:
+        _evidence_restore(bk)
+
+
+def _main():
     args = sys.argv[1:]
     tier = "quick"
     if args[:1] == ["--tier"]:
